@@ -621,6 +621,12 @@ def run(ctx):
             break
     reads = [('factory', 'var a = 1;', '/abs/in.js'), ('open', 'var a = 1;', 'rel/in.js'), ('factory', 'var a = ;', 'bad.js'),
              ('open', 'x = /[/', 'bad2.js'), ('factory', 'a b', None), ('open', 'ok()', None), ('factory', '', 'empty.js')]
+    # names that mean something to whatever builds the message (format characters, quotes, backslashes, non-ASCII)
+    for nm in ('lib/my%20module.js', '/srv/static/100%.js', '%s.min.js', 'a%%b.js', '%(name)s.js', '{}.js', '{0}{name}.js',
+               "it's.js", 'say "hi".js', 'back\\slash.js', '\u30bd\u30fc\u30b9.js', 'new\nline.js', ''):
+        reads.append(('factory', 'var a = ;', nm))
+        reads.append(('open', 'ok(', nm))
+        reads.append(('open', 'var fine = 1;', nm))
     for i, (kind, text, name) in enumerate(reads):
         if i % ctx.nshards == ctx.shard:
             explore_read(ctx, kind, text, name)
